@@ -1,3 +1,351 @@
-/-! C04 model (stub) -/
+import OtelVerif.Model.Payload
+import OtelVerif.Gen.C04Shape
+/-!
+# C04 — exporter-side batching (exporter/exporterhelper)
+
+* sizers (`internal/sizer`): items (`delta = id`, a log record / span / data point is 1, a profile is its number
+  of samples) and bytes (`DeltaSize n = 1 + n + sov n`, leaf sizes and own-field sizes measured on the real
+  objects are inputs carried by the payload tree).
+* `extractLogs/ResourceLogs/ScopeLogs` (= traces, profiles: same code modulo renaming) and
+  `extractMetrics/…/extractMetricDataPoints`, closure by closure, with `capacityLeft` / `removedSize` as the
+  closure state, in `Int` because `capacityLeft` does go negative in the bytes case.
+* `moveFirst*` (repair of the non-terminating split), `split`, `mergeTo`, `MergeSplit` with `cachedSize`.
+* the batcher bookkeeping of `queuebatch/default_batcher.go` (`Consume`, timer / shutdown flush, `multiDone`,
+  `refCountDone`) as a labelled transition system.
+
+The model is of the repaired code in /tmp/wt-C04 (three `fix:` commits); `Gen.C04Shape.metricFragmentKeepsIdentity`
+(regenerated from metrics_batch.go on every run) selects whether split-off metrics carry the source metric's identity.
+-/
 namespace OtelVerif.C04
+open OtelVerif.Payload
+
+/-! ## sizers -/
+
+/-- `sov(uint64(n)) = (bits.Len64(x|1)+6)/7`; a negative `int` converts to a 64-bit pattern with the top bit set -/
+def sov (n : Int) : Int :=
+  if n < 0 then 10 else (((Nat.log2 (n.toNat ||| 1) + 1 + 6) / 7 : Nat) : Int)
+
+structure Sizer where
+  bytes : Bool
+deriving DecidableEq, Repr
+
+/-- `DeltaSize` -/
+def Sizer.delta (sz : Sizer) (n : Int) : Int := if sz.bytes then 1 + n + sov n else n
+
+def Sizer.own (sz : Sizer) (base : Nat) : Int := if sz.bytes then (base : Int) else 0
+
+def isum (l : List Int) : Int := l.foldr (· + ·) 0
+
+/-- size contributed by a repeated field: `Σ DeltaSize(size child)` -/
+def sumD {α : Type} (sz : Sizer) (f : α → Int) (l : List α) : Int := isum (l.map (fun c => sz.delta (f c)))
+
+def itemSize (sz : Sizer) (i : Item) : Int := if sz.bytes then (i.bsz : Int) else (i.w : Int)
+def scopeSize (sz : Sizer) (s : Scope) : Int := sz.own s.smeta.base + sumD sz (itemSize sz) s.items
+def resSize (sz : Sizer) (r : Res) : Int := sz.own r.rmeta.base + sumD sz (scopeSize sz) r.scopes
+def payloadSize (sz : Sizer) (p : List Res) : Int := sumD sz (resSize sz) p
+
+/-- `MetricSize`: bytes = own fields + the `oneof data` member (absent for the empty type) wrapping the data
+message (its own fields + the points); items = number of data points -/
+def metricSize (sz : Sizer) (m : Metric) : Int :=
+  if sz.bytes then
+    (m.mmeta.base : Int) + (if m.mmeta.ty == 0 then 0 else sz.delta ((m.mmeta.ibase : Int) + sumD sz (itemSize sz) m.points))
+  else sumD sz (itemSize sz) m.points
+def mscopeSize (sz : Sizer) (s : MScope) : Int := sz.own s.smeta.base + sumD sz (metricSize sz) s.metrics
+def mresSize (sz : Sizer) (r : MRes) : Int := sz.own r.rmeta.base + sumD sz (mscopeSize sz) r.scopes
+def mpayloadSize (sz : Sizer) (p : List MRes) : Int := sumD sz (mresSize sz) p
+
+/-! ## extract -/
+
+/-- closure state of the `extract*` functions -/
+structure St where
+  cap : Int
+  rm : Int
+deriving DecidableEq, Repr
+
+def stop (st : St) : Bool := st.cap == 0
+
+/-- `sz := DeltaSize(size c); if sz > capacityLeft {…cut…}; capacityLeft -= sz; removedSize += sz; move; return true` -/
+def fitsBy {α : Type} (sz : Sizer) (size : α → Int) (st : St) (c : α) : Option St :=
+  let d := sz.delta (size c)
+  if d > st.cap then none else some ⟨st.cap - d, st.rm + d⟩
+
+/-- innermost level: `capacityLeft = 0; return false` -/
+def cutLeaf {α : Type} (st : St) (c : α) : Option α × Option α × St := (none, some c, ⟨0, st.rm⟩)
+
+/-- outer levels: `ext, extSize := extractChild(c, capacityLeft); capacityLeft = 0; removedSize += extSize;
+removedSize += d - raw - (DeltaSize(raw-extSize) - (raw-extSize)); if nonEmpty(ext) {move ext to dest};
+return nonEmpty(ext)` — the last test runs after `MoveTo` has reset `ext`, so it is always false: the child stays. -/
+def cutBy {α : Type} (sz : Sizer) (size : α → Int) (ext : Int → α → α × α × Int) (nonEmpty : α → Bool)
+    (st : St) (c : α) : Option α × Option α × St :=
+  let raw := size c
+  let d := sz.delta raw
+  let e := ext st.cap c
+  let rm := st.rm + e.2.2 + (d - raw - (sz.delta (raw - e.2.2) - (raw - e.2.2)))
+  (if nonEmpty e.1 then some e.1 else none, some e.2.1, ⟨0, rm⟩)
+
+/-- capacity left for the children of a fragment that may grow to `cap`: `cap - (DeltaSize(cap) - cap) - size(dest)` -/
+def innerCap (sz : Sizer) (cap : Int) (destSize : Int) : Int := cap - (sz.delta cap - cap) - destSize
+
+def extractScope (sz : Sizer) (cap : Int) (s : Scope) : Scope × Scope × Int :=
+  let dest0 : Scope := { smeta := s.smeta, items := [] }
+  let w := walk stop (fitsBy sz (itemSize sz)) cutLeaf ⟨innerCap sz cap (scopeSize sz dest0), 0⟩ s.items
+  ({ dest0 with items := w.dest }, { s with items := w.rem }, w.st.rm)
+
+def extractRes (sz : Sizer) (cap : Int) (r : Res) : Res × Res × Int :=
+  let dest0 : Res := { rmeta := r.rmeta, scopes := [] }
+  let w := walk stop (fitsBy sz (scopeSize sz)) (cutBy sz (scopeSize sz) (extractScope sz) (fun s => s.items.length > 0))
+    ⟨innerCap sz cap (resSize sz dest0), 0⟩ r.scopes
+  ({ dest0 with scopes := w.dest }, { r with scopes := w.rem }, w.st.rm)
+
+/-- `extractLogs(src, capacity, sz)` → (dest, src afterwards, removedSize) -/
+def extract (sz : Sizer) (cap : Int) (p : List Res) : List Res × List Res × Int :=
+  let w := walk stop (fitsBy sz (resSize sz)) (cutBy sz (resSize sz) (extractRes sz) (fun r => r.scopes.length > 0))
+    ⟨cap - payloadSize sz [], 0⟩ p
+  (w.dest, w.rem, w.st.rm)
+
+/-! ### metrics -/
+
+def zeroMMeta : MMeta := { name := 0, unit := 0, desc := 0, ty := 0, temp := 0, mono := 0, md := 0, base := 0, ibase := 0 }
+
+/-- identity of the metric built by `extract*DataPoints`: repaired = name, description, unit, metadata, type,
+temporality, monotonicity of the source; pinned = only the type.  (The repaired code also adds the fragment to the
+destination only if it received a data point; the pinned code tests `MetricSize(fragment) > 0`.) -/
+def fragMeta (keep : Bool) (m : MMeta) : MMeta :=
+  if keep then m else { zeroMMeta with ty := m.ty }
+
+def extractPoints (keep : Bool) (sz : Sizer) (cap : Int) (m : Metric) : Metric × Metric × Int :=
+  if m.mmeta.ty == 0 then
+    -- no case of the type switch: the zero `pmetric.Metric` is returned, nothing removed
+    ({ mmeta := zeroMMeta, points := [] }, m, 0)
+  else
+    let dest0 : Metric := { mmeta := fragMeta keep m.mmeta, points := [] }
+    -- the repaired code reserves the length-prefix delta twice (metric and its data message)
+    let w := walk stop (fitsBy sz (itemSize sz)) cutLeaf ⟨innerCap sz cap (metricSize sz dest0) - (sz.delta cap - cap), 0⟩ m.points
+    ({ dest0 with points := w.dest }, { m with points := w.rem }, w.st.rm)
+
+def extractMScope (keep : Bool) (sz : Sizer) (cap : Int) (s : MScope) : MScope × MScope × Int :=
+  let dest0 : MScope := { smeta := s.smeta, metrics := [] }
+  let w := walk stop (fitsBy sz (metricSize sz)) (cutBy sz (metricSize sz) (extractPoints keep sz) (fun m => if keep then m.points.length > 0 else metricSize sz m > 0))
+    ⟨innerCap sz cap (mscopeSize sz dest0), 0⟩ s.metrics
+  ({ dest0 with metrics := w.dest }, { s with metrics := w.rem }, w.st.rm)
+
+def extractMRes (keep : Bool) (sz : Sizer) (cap : Int) (r : MRes) : MRes × MRes × Int :=
+  let dest0 : MRes := { rmeta := r.rmeta, scopes := [] }
+  let w := walk stop (fitsBy sz (mscopeSize sz)) (cutBy sz (mscopeSize sz) (extractMScope keep sz) (fun s => s.metrics.length > 0))
+    ⟨innerCap sz cap (mresSize sz dest0), 0⟩ r.scopes
+  ({ dest0 with scopes := w.dest }, { r with scopes := w.rem }, w.st.rm)
+
+def mextract (keep : Bool) (sz : Sizer) (cap : Int) (p : List MRes) : List MRes × List MRes × Int :=
+  let w := walk stop (fitsBy sz (mresSize sz)) (cutBy sz (mresSize sz) (extractMRes keep sz) (fun r => r.scopes.length > 0))
+    ⟨cap - mpayloadSize sz [], 0⟩ p
+  (w.dest, w.rem, w.st.rm)
+
+/-! ## moveFirst* (the repair: an item that cannot be extracted within max_size leaves alone) -/
+
+/-- `moved := false; RemoveIf(if moved {return false}; moved = true; move; return true)` -/
+def moveFirstOf (items : List Item) : Walk Item Bool :=
+  walk (fun moved => moved) (fun _ _ => some true) (fun m c => (none, some c, m)) false items
+
+/-- scope closure of `moveFirstLogRecord`: `if moved || len == 0 {return false}; dest := copy of resource and scope;
+inner RemoveIf; return len == 0` -/
+def mfScope (moved : Bool) (s : Scope) : Option Scope × Option Scope × Bool :=
+  if s.items.length == 0 then (none, some s, moved)
+  else
+    let w := moveFirstOf s.items
+    (some { smeta := s.smeta, items := w.dest }, if w.rem.length == 0 then none else some { s with items := w.rem }, w.st)
+
+/-- resource closure: `if moved {return false}; inner RemoveIf; return moved && scopes.Len() == 0` -/
+def mfRes (_moved : Bool) (r : Res) : Option Res × Option Res × Bool :=
+  let w := walk (fun moved => moved) (fun _ _ => none) mfScope false r.scopes
+  (if w.dest.length == 0 then none else some { rmeta := r.rmeta, scopes := w.dest },
+   if w.st && w.rem.length == 0 then none else some { r with scopes := w.rem }, w.st)
+
+/-- `moveFirstLogRecord(src, dest)` → (src afterwards, dest afterwards, moved) -/
+def moveFirst (src dest : List Res) : List Res × List Res × Bool :=
+  let w := walk (fun moved => moved) (fun _ _ => none) mfRes false src
+  (w.rem, dest ++ w.dest, w.st)
+
+/-- metric closure of `moveFirstDataPoint`: `if moved || count == 0 {return false}; …; moved = true; return count == 0` -/
+def mfMetric (moved : Bool) (m : Metric) : Option Metric × Option Metric × Bool :=
+  if m.points.length == 0 then (none, some m, moved)
+  else
+    let w := moveFirstOf m.points
+    (some { mmeta := m.mmeta, points := w.dest }, if w.rem.length == 0 then none else some { m with points := w.rem }, true)
+
+def mfMScope (_moved : Bool) (s : MScope) : Option MScope × Option MScope × Bool :=
+  let w := walk (fun moved => moved) (fun _ _ => none) mfMetric false s.metrics
+  (if w.dest.length == 0 then none else some { smeta := s.smeta, metrics := w.dest },
+   if w.st && w.rem.length == 0 then none else some { s with metrics := w.rem }, w.st)
+
+def mfMRes (_moved : Bool) (r : MRes) : Option MRes × Option MRes × Bool :=
+  let w := walk (fun moved => moved) (fun _ _ => none) mfMScope false r.scopes
+  (if w.dest.length == 0 then none else some { rmeta := r.rmeta, scopes := w.dest },
+   if w.st && w.rem.length == 0 then none else some { r with scopes := w.rem }, w.st)
+
+def mmoveFirst (src dest : List MRes) : List MRes × List MRes × Bool :=
+  let w := walk (fun moved => moved) (fun _ _ => none) mfMRes false src
+  (w.rem, dest ++ w.dest, w.st)
+
+/-! ## requests, split, MergeSplit (generic in the payload type) -/
+
+/-- what `split` needs from a signal -/
+structure Ops (P : Type) where
+  size : P → Int
+  extract : Int → P → P × P × Int
+  moveFirst : P → P → P × P × Bool
+  append : P → P → P
+  nodes : P → Nat
+
+def logsOps (sz : Sizer) : Ops (List Res) :=
+  { size := payloadSize sz, extract := extract sz, moveFirst := moveFirst, append := (· ++ ·), nodes := nodes }
+
+def metricsOps (keep : Bool) (sz : Sizer) : Ops (List MRes) :=
+  { size := mpayloadSize sz, extract := mextract keep sz, moveFirst := mmoveFirst, append := (· ++ ·), nodes := mnodes }
+
+/-- `logsRequest{ld, cachedSize}`; `cachedSize == -1` means "not computed" -/
+structure Req (P : Type) where
+  p : P
+  cached : Int := -1
+
+/-- `req.size(sz)`: computes and memoises -/
+def Req.size {P : Type} (o : Ops P) (r : Req P) : Int := if r.cached == -1 then o.size r.p else r.cached
+def Req.norm {P : Type} (o : Ops P) (r : Req P) : Req P := { r with cached := r.size o }
+
+/-- the loop of `split`, with fuel; `none` = fuel exhausted (the loop did not end within `fuel` iterations) -/
+def splitLoop {P : Type} (o : Ops P) (max : Int) : Nat → Req P → List (Req P) → Option (List (Req P))
+  | 0, _, _ => none
+  | fuel + 1, req, res =>
+    let req := req.norm o
+    if req.cached > max then
+      let e := o.extract max req.p
+      if e.2.2 == 0 then
+        let m := o.moveFirst e.2.1 e.1
+        if m.2.2 then
+          splitLoop o max fuel { p := m.1, cached := o.size m.1 } (res ++ [{ p := m.2.1, cached := -1 }])
+        else
+          let p := o.append m.1 m.2.1
+          some (res ++ [{ p := p, cached := o.size p }])
+      else
+        splitLoop o max fuel { p := e.2.1, cached := req.cached - e.2.2 } (res ++ [{ p := e.1, cached := -1 }])
+    else some (res ++ [req])
+
+/-- `req.split(maxSize, sz)`: every iteration removes at least one node from `req`, so `nodes + 1` iterations suffice
+(`C04_terminates`) -/
+def split {P : Type} (o : Ops P) (max : Int) (req : Req P) : Option (List (Req P)) :=
+  splitLoop o max (o.nodes req.p + 1) req []
+
+/-- `req2.mergeTo(req, sz)` -/
+def mergeTo {P : Type} (o : Ops P) (dst src : Req P) : Req P :=
+  { p := o.append dst.p src.p, cached := dst.size o + src.size o }
+
+/-- `req.MergeSplit(ctx, maxSize, szt, r2)` -/
+def mergeSplit {P : Type} (o : Ops P) (max : Int) (r1 : Req P) (r2 : Option (Req P)) : Option (List (Req P)) :=
+  let r := match r2 with
+    | some r2 => mergeTo o r1 r2
+    | none => r1
+  if max == 0 then some [r] else split o max r
+
+
+/-! ## batcher bookkeeping (`queuebatch/default_batcher.go`) -/
+
+/-- a request as the batcher sees it: which incoming request each run of items came from -/
+abbrev Parts := List (Nat × Nat)
+
+def Parts.items (p : Parts) : Nat := sumBy (·.2) p
+
+/-- FIFO packing of indivisible units into chunks of at most `max` (the `MergeSplit` contract the batcher relies on:
+a chunk is closed when the next unit does not fit, an oversized unit travels alone; `max > 0`) -/
+def pack (max : Nat) : Parts → Parts → Nat → List Parts
+  | [], cur, _ => [cur.reverse]
+  | (id, n) :: rest, cur, room =>
+    if n > room && !cur.isEmpty then cur.reverse :: pack max rest [(id, n)] (max - n)
+    else pack max rest ((id, n) :: cur) (room - n)
+
+def partsMergeSplit (max : Nat) (a : Parts) (b : Parts) : List Parts :=
+  let all := a ++ b
+  if max == 0 then [all] else pack max all [] max
+
+/-- a `Done`: the incoming request's own callback, or a `refCountDone` around it -/
+inductive DoneObj where
+  | base (id : Nat)
+  | ref (idx : Nat)
+deriving DecidableEq, Repr
+
+structure RefCount where
+  target : Nat
+  count : Int
+  err : Bool
+deriving Repr
+
+structure Flight where
+  fid : Nat
+  parts : Parts
+  dones : List DoneObj
+
+structure BCfg where
+  min : Nat
+  max : Nat
+
+structure BState where
+  cur : Option (Parts × List DoneObj) := none
+  refs : List RefCount := []
+  flights : List Flight := []
+  nextF : Nat := 0
+
+/-- `newRefCountDone(done, n)` when more than one flush is needed -/
+def BState.mkDone (s : BState) (id n : Nat) : BState × DoneObj :=
+  if n > 1 then ({ s with refs := s.refs ++ [⟨id, n, false⟩] }, .ref s.refs.length) else (s, .base id)
+
+/-- `Consume`: returns the new state and the flushes started (request, multiDone), in the order of the code -/
+def BState.consume (c : BCfg) (s : BState) (id : Nat) (units : Parts) : BState × List (Parts × List DoneObj) :=
+  match s.cur with
+  | none =>
+    let reqList := partsMergeSplit c.max units []
+    let (s, d) := s.mkDone id reqList.length
+    let last := reqList.getLast?.getD []
+    if last.items < c.min then
+      ({ s with cur := some (last, [d]) }, reqList.dropLast.map (fun r => (r, [d])))
+    else (s, reqList.map (fun r => (r, [d])))
+  | some (cur, dones) =>
+    let reqList := partsMergeSplit c.max cur units
+    let first := reqList.head?.getD []
+    -- repaired: the new request's Done is linked to the first result only if part of the request is in it
+    -- (`ItemsCount` of the first result grew beyond the pending batch's)
+    let firstHasNew := reqList.length == 1 || first.length > cur.length
+    let (s, d) := s.mkDone id (if firstHasNew then reqList.length else reqList.length - 1)
+    let dones := if firstHasNew then dones ++ [d] else dones
+    let flushFirst := reqList.length > 1 || first.items ≥ c.min
+    let s := if flushFirst then { s with cur := none } else { s with cur := some (first, dones) }
+    let rest := reqList.drop 1
+    let last := rest.getLast?.getD []
+    let (s, rest) :=
+      if rest.length > 0 && last.items < c.min then ({ s with cur := some (last, [d]) }, rest.dropLast) else (s, rest)
+    (s, (if flushFirst then [(first, dones)] else []) ++ rest.map (fun r => (r, [d])))
+
+/-- `flushCurrentBatchIfNecessary` (timer, shutdown) -/
+def BState.flushCur (s : BState) : BState × List (Parts × List DoneObj) :=
+  match s.cur with
+  | none => (s, [])
+  | some (p, ds) => ({ s with cur := none }, [(p, ds)])
+
+/-- `OnDone(err)` on one `Done`: the base callback fires; a ref-count accumulates the error, decrements, fires at 0 -/
+def onDone (refs : List RefCount) (err : Bool) : DoneObj → List RefCount × List (Nat × Bool)
+  | .base id => (refs, [(id, err)])
+  | .ref i =>
+    match refs[i]? with
+    | none => (refs, [])
+    | some r =>
+      let r' : RefCount := { r with err := r.err || err, count := r.count - 1 }
+      (refs.set i r', if r'.count == 0 then [(r'.target, r'.err)] else [])
+
+/-- the flush goroutine ends: `done.OnDone(consumeFunc(ctx, req))` on the flight's `multiDone` -/
+def BState.finish (s : BState) (fid : Nat) (err : Bool) : BState × List (Nat × Bool) :=
+  match s.flights.find? (fun f => f.fid = fid) with
+  | none => (s, [])
+  | some f =>
+    let r := f.dones.foldl (fun (acc : List RefCount × List (Nat × Bool)) d =>
+      let x := onDone acc.1 err d
+      (x.1, acc.2 ++ x.2)) (s.refs, [])
+    ({ s with refs := r.1, flights := s.flights.filter (fun g => g.fid ≠ fid) }, r.2)
+
 end OtelVerif.C04
